@@ -7,7 +7,7 @@ when it is released to depth 0):
     0 <= QLO <= TAKEN <= INPUTLEN
     the look-ahead queue tiles [QLO, TAKEN): consecutive, non-empty batches, first starts at QLO, last ends at TAKEN
     n_dispatched_tasks == QLO unless a batch was dropped because the call is aborting (DROPPED => _aborting)
-    TAKEN - QLO <= batch_size * n_jobs                        (look-ahead bound, fixed batch size)
+    TAKEN - QLO <= batch_size * n_jobs                        (look-ahead bound; batch_size='auto': the largest size computed so far, ghost BSMAX)
 """
 import z3
 
@@ -116,7 +116,8 @@ def build():
         g = interp.ctx.ghost
         return li_formulas(q=me.fields["_ready_batches"], qlo=G(interp, "QLO"), taken=G(interp, "TAKEN"), n=G(interp, "INPUTLEN"),
                            dropped=_b(g["DROPPED"]), ab=_b(me.fields["_aborting"]), nd=ops.as_int_term(me.fields["n_dispatched_tasks"]),
-                           bs=ops.as_int_term(me.fields["batch_size"]), nj=ops.as_int_term(me.fields["_cached_effective_n_jobs"]),
+                           bs=(G(interp, "BSMAX") if isinstance(me.fields["batch_size"], str) else ops.as_int_term(me.fields["batch_size"])),
+                           nj=ops.as_int_term(me.fields["_cached_effective_n_jobs"]),
                            nb=ops.as_int_term(me.fields["n_dispatched_batches"]), done=_b(g.get("DONE", False)))
 
     def li_term(interp, me):
@@ -145,6 +146,11 @@ def build():
                 old_done = _b(ctx.ghost["DONE"])
                 ctx.ghost["DONE"] = BOOL.fresh(ctx, "DONE")
                 ctx.assume(z3.Implies(old_done, ctx.ghost["DONE"].term))  # stable
+            if "BSMAX" in ctx.ghost:
+                # batch_size='auto': the largest batch size any thread has computed so far only grows
+                old_max = G(interp, "BSMAX")
+                ctx.ghost["BSMAX"] = INT.fresh(ctx, "BSMAX")
+                ctx.assume(G(interp, "BSMAX") >= old_max)
             ctx.assume(li_term(interp, me))
             ctx.ghost["TAKEN@acquire"] = ctx.ghost["TAKEN"]
             ctx.ghost["QLO@acquire"] = ctx.ghost["QLO"]
@@ -271,6 +277,9 @@ def build():
     def _auto_bs(i, r, a, k):
         v = INT.fresh(i.ctx, "auto_bs")
         i.ctx.assume(v.term >= 1)  # contract of AutoBatchingMixin.compute_batch_size (part 1): at_least_one_task_per_batch
+        if "BSMAX" in i.ctx.ghost:
+            m = ops.as_int_term(i.ctx.ghost["BSMAX"])
+            i.ctx.ghost["BSMAX"] = Sym(INT, z3.If(v.term > m, v.term, m))
         return v
 
     p.models["backend.compute_batch_size"] = _auto_bs
@@ -329,17 +338,25 @@ def build():
         if env.lookup("iterator") == "ORIGINAL":
             env.assign("iterator", env.lookup("self").fields["_original_iterator"])
 
-    p.add(Contract(
-        PAR, "Parallel.dispatch_one_batch", props=["C01", "C09", "C04", "C16"], ghost=D1B_GHOST, setup=d1b_setup,
+    def d1b_auto_setup(interp, env):
+        d1b_setup(interp, env)
+        interp.ctx.assume(G(interp, "BSMAX") >= 1)
+
+    def d1b_contract(auto):
+      return Contract(
+        PAR, "Parallel.dispatch_one_batch", props=["C01", "C09", "C04", "C16"], ghost=(dict(D1B_GHOST, BSMAX=INT) if auto else D1B_GHOST),
+        setup=(d1b_auto_setup if auto else d1b_setup), variant=("auto-batch-size" if auto else None),
         inline={"_get_batch_size"},
-        params=dict(self=parallel(), iterator=iterator_arg),
-        requires=["lock_depth() == 0", "self.batch_size >= 1 and self._cached_effective_n_jobs >= 2"],
+        params=dict(self=parallel(**(dict(batch_size="auto") if auto else {})), iterator=iterator_arg),
+        # batch_size='auto': every thread asks the backend (AutoBatchingMixin.compute_batch_size, part 1: >= 1) before taking the lock; BSMAX
+        # (ghost) is the largest answer so far - the look-ahead bound of the lock invariant is stated with it
+        requires=["lock_depth() == 0", ("self._cached_effective_n_jobs >= 2" if auto else "self.batch_size >= 1 and self._cached_effective_n_jobs >= 2")],
         returns=BOOL,
         ensures={"lock_released": "lock_depth() == 0"},
         ensures_body={
             # C09: consumption is lazy and bounded - only when the look-ahead queue is empty, at most batch_size * n_jobs items per call
             "pulls_only_when_lookahead_is_empty": "n_events('pull') == 0 or (n_events('pull') == 1 and empty_at_acquire())",
-            "pulls_at_most_one_big_batch": "pulled() <= self.batch_size * self._cached_effective_n_jobs",
+            "pulls_at_most_one_big_batch": ("pulled() <= BSMAX * self._cached_effective_n_jobs" if auto else "pulled() <= self.batch_size * self._cached_effective_n_jobs"),
             "abort_is_consulted_before_slicing": "implies(old(self._aborting), n_events('pull') == 0 and n_events('submit') == 0 and not result)",
             # C01: exactly the head of the tiling leaves the queue and is handed to _dispatch
             "dispatches_at_most_one_batch": "n_events('submit') + n_events('dropped') <= 1",
@@ -368,7 +385,11 @@ def build():
                 "sizes": "final_batch_size >= 1 and len(islice) >= 1 and _next >= 0",
             },
         )},
-    ))
+      )
+
+    for _auto in (False, True):
+        p.add(d1b_contract(_auto))
+
     def exhausted(interp, it):
         taken, total = G(interp, "TAKEN"), G(interp, "INPUTLEN")
         if isinstance(it, Opaque) and it.tag == "limited":
@@ -378,9 +399,10 @@ def build():
     p.spec_funcs["exhausted"] = exhausted
     p.spec_funcs["from_slice"] = lambda interp, b: ops.mk_bool(FROM_SLICE(b.term))
     p.spec_funcs["queue_is_empty"] = lambda interp, me: ops.mk_bool(me.fields["_ready_batches"].head == me.fields["_ready_batches"].tail)
-    p.contracts[[k for k in p.contracts if k[1] == "Parallel.dispatch_one_batch"][0]].clause_props = {
-        "the_calling_threads_slice_loop_only_dispatches_its_own_slice": ["C09"],
-        "never_escapes_into_a_callback_thread": ["C04", "C01", "C09"]}
+    for _k in [k for k in p.contracts if k[1] == "Parallel.dispatch_one_batch"]:
+        p.contracts[_k].clause_props = {
+            "the_calling_threads_slice_loop_only_dispatches_its_own_slice": ["C09"],
+            "never_escapes_into_a_callback_thread": ["C04", "C01", "C09"]}
     p.spec_funcs["iterator_raised"] = lambda interp: any(e[0] == "pull" and e[2] == "raised" for e in interp.ctx.events)
 
     # ---- dispatch_next / _start use dispatch_one_batch through its contract (summary: returns a bool, may dispatch one batch)
